@@ -114,6 +114,8 @@ def replay_numpy(req, tmp):
     what = 'NumpyConverter(%s cube).run(bits_per_voxel=%s, blockshape=%s)' % (dims, opts.get('bpv_in', rate), tuple(opts.get('bs_in', bs)))
     try:
         with NumpyConverter(cube, **kw) as conv:
+            if opts.get('runs') == 2:
+                quiet(conv.run, os.path.join(tmp, 'first.sgz'), bits_per_voxel=4, blockshape=(4, 4, -1))
             quiet(conv.run, path, bits_per_voxel=opts.get('bpv_in', rate), blockshape=tuple(opts.get('bs_in', bs)))
     except Exception as e:
         return dict(reproduced=True, detail='%s raised %s: %s' % (what, type(e).__name__, str(e)[:100]), extra=dict(outcome='writer-raised'))
